@@ -292,8 +292,19 @@ func (s *Server) referrerAdd(repo store.Repo, subject digest.Digest, desc types.
 			}
 		}()
 	}
-	// add descriptor to index and push into blob store
-	refResp.AddDesc(desc)
+	// add descriptor to the response, replacing an entry with the same digest
+	// (the listed descriptors carry the annotations of their manifests, which must not be read as tags or referrer subjects)
+	found := false
+	for i := range refResp.Manifests {
+		if refResp.Manifests[i].Digest == desc.Digest {
+			refResp.Manifests[i] = desc
+			found = true
+			break
+		}
+	}
+	if !found {
+		refResp.Manifests = append(refResp.Manifests, desc)
+	}
 	iRaw, err := json.Marshal(refResp)
 	if err != nil {
 		return err
@@ -361,8 +372,8 @@ func (s *Server) referrerDelete(repo store.Repo, subject digest.Digest, desc typ
 	if err != nil {
 		return err
 	}
-	// remove descriptor from response
-	refResp.RmDesc(desc)
+	// remove descriptor from response by digest (its annotations are those of the manifest, not tags)
+	refResp.RmDesc(types.Descriptor{Digest: desc.Digest})
 	// push response back to blob store with a new digest
 	refRespRaw, err = json.Marshal(refResp)
 	if err != nil {
